@@ -86,7 +86,7 @@ PROPS = {
                        "--event-webhook-url and a generated --event-filter file (absent / per-event booleans / wildcards). A receiver inside the harness "
                        "collects the records. After quiescence the multiset of records must equal the expectation: exactly one record per key "
                        "affected by a successful request whose event type passes the filter, none for failed requests, right bucket, byte-exact key, "
-                       "event type, size and ETag (for puts). The receiver answers 200, 201, 202 or 204. The receiver may reply with a body; batches hold up to 12 keys."),
+                       "event type, size and ETag (for puts). The receiver answers 200, 201, 202 or 204. The receiver may reply with a body; batches hold up to 12 keys. A third of the cases run on a bucket that keeps versions: the notification of a write names the version its response announced, that of a delete the delete marker; every other copy names the version of its source explicitly (the event is about the new version all the same)."),
         "level_note": "Keys include directory objects (ending in '/'). quiescence = all expected records arrived and 400 ms of silence, or 7 s (> 2x the sender's own client time-out). Two open findings narrow the oracle: size 0 in copy / multipart notifications, and batch-delete notifications for keys whose deletion failed. Exploration only.",
         "rule": ("case = (filter, clients, ops). Non-trivial: >= 2 clients and >= 1 failing request; distinct by the full case."),
         "assumptions": ["webhook delivery on loopback; kafka / nats senders are not exercised (no broker offline)"],
